@@ -124,6 +124,10 @@ class BaseSpec:
     def eq_override(self, I, a, b):
         return None
 
+    def field_read(self, I, obj, name):
+        """hook: quantifier-free instances of input-heap invariants for a field about to be read"""
+        return None
+
     def ext_call(self, I, dotted, args, kwargs, star):
         parts = dotted.split(".")
         if parts[-1] in models.LOGGING_NOOPS and ("logger" in dotted.lower() or "logging" in dotted.lower()):
@@ -200,6 +204,10 @@ class BaseSpec:
         raise OutsideSubset(f"assignment to class attribute {ci.name}.{name}")
 
     def call_value(self, I, f, args, kwargs, star):
+        if os.environ.get("PYVC_DEBUG"):
+            print("CALL_VALUE", str(f)[:400].replace("\n", " "))
+            for t_ in I.st.oracle.trail[-12:]:
+                print("   trail", t_)
         raise OutsideSubset("call of a symbolic value")
 
     def opaque_super(self, I, sup, c, name):
@@ -238,7 +246,9 @@ class BaseSpec:
         raise OutsideSubset("float() of non-number")
 
     def int_unknown(self, I, x):
-        raise OutsideSubset("int() of opaque value")
+        """int(x) of an opaque object: assumed to have no __int__/__index__ -> TypeError"""
+        self.assumptions.add("opaque objects define no __int__/__index__: int(obj) raises TypeError")
+        I.raise_(TypeError, origin=("int(obj)",))
 
     def sorted_with_key(self, I, args, kwargs):
         raise OutsideSubset("sorted with key")
